@@ -230,7 +230,7 @@ def model_check(mol: Mol, targets, invariants, liveness=True, tag="mc", workers=
             f.write("PROPERTY AttachSound\n")
             if liveness:
                 f.write("PROPERTY Termination\n")
-        extra = ["-simulate", f"num={simulate[0]}", "-depth", str(simulate[1])] if simulate else []
+        extra = ["-simulate", f"num={simulate[0]}", "-depth", str(simulate[1]), "-seed", str(common.seed() + 1)] if simulate else []
         r = run_tlc(d, "MC", cfg=cfg, workers=workers, timeout=timeout, xmx="3g", coverage=not simulate, extra=extra)
         if simulate:
             # simulation mode ends by reaching the number of behaviours: "ok" = no violation reported
